@@ -128,6 +128,7 @@ type loopInfo struct {
 	backs []*ssa.BasicBlock
 	ord   int
 	spec  *LoopSpec
+	anchors []string // callee patterns of the anchored loop specs ("loop @callee …") attached to this loop
 	phiHavoc map[*ssa.Phi]Val
 	entryMemForOld *MemState
 	frameBase string
@@ -528,6 +529,7 @@ func (fr *Frame) findLoops() bool {
 				*merged = *best.spec
 				merged.Invs = append([]Clause{}, best.spec.Invs...)
 			}
+			best.anchors = append(best.anchors, pat)
 			merged.Invs = append(merged.Invs, spec.Invs...)
 			merged.Assigns = append(merged.Assigns, spec.Assigns...)
 			if spec.IsOrderFree {
@@ -670,7 +672,7 @@ func (fr *Frame) run(entryReach string, entryMem *MemState) {
 		fr.memOut[b] = fr.curMem
 		fr.reach[b] = fr.curReach // calls that may not return narrow the reach of the rest of the block
 		// "at loopexit#N assert e": checked on the edge that leaves loop N from its head (the loop ran to completion)
-		if l0 := fr.loops[b]; l0 != nil && fr.isTop && ex.topContract != nil {
+		if l0 := fr.loops[b]; l0 != nil && (fr.isTop || len(l0.anchors) > 0) && ex.topContract != nil {
 			for _, sc := range b.Succs {
 				if !l0.body[sc] {
 					fr.loopExitClauses(l0, b, sc)
@@ -1586,7 +1588,21 @@ func rootAlloc(v ssa.Value) *ssa.Alloc {
 func (fr *Frame) loopExitClauses(li *loopInfo, b, succ *ssa.BasicBlock) {
 	ex := fr.ex
 	for i, s := range ex.topContract.Sites {
-		if s.Callee != "loopexit" || s.Ord != li.ord || s.Kind != "assert" || !clauseApplies(s.Cl, ex.Prop) {
+		if s.Kind != "assert" || !clauseApplies(s.Cl, ex.Prop) {
+			continue
+		}
+		if strings.HasPrefix(s.Callee, "loopexit@") {
+			// "at loopexit@callee assert e": the loop an anchored loop spec of that name is attached to (also inside a helper)
+			hit := false
+			for _, a := range li.anchors {
+				if a == strings.TrimPrefix(s.Callee, "loopexit@") {
+					hit = true
+				}
+			}
+			if !hit {
+				continue
+			}
+		} else if s.Callee != "loopexit" || s.Ord != li.ord || !fr.isTop {
 			continue
 		}
 		ex.markSite(i)
